@@ -460,6 +460,17 @@ def step (st : St) (line : String) : St × String :=
     match ks.mapM Driver.parseU64 with
     | some l => if l.length = 837 then ({ st with eng := {}, engKeys := #[l.toArray], specHist := [] }, both "ok" "?") else (st, modelOnly "bad-op")
     | none => (st, modelOnly "bad-op")
+  | "eng.keys" :: ks =>
+    -- the key table the engine's current searcher uses (reported by the harness after a ucinewgame)
+    match ks.mapM Driver.parseU64 with
+    | some l =>
+      if l.length = 837 then
+        let i := st.eng.newGames
+        let ek := if i < st.engKeys.size then st.engKeys.set! i l.toArray
+                  else (st.engKeys ++ Array.replicate (i - st.engKeys.size) defaultKeys).push l.toArray
+        ({ st with engKeys := ek }, both "ok" "?")
+      else (st, modelOnly "bad-op")
+    | none => (st, modelOnly "bad-op")
   | "eng.pos" :: start :: rest =>
     -- eng.pos <start board> <mv>* | <the position command line>
     match parseBoard start with
